@@ -16,7 +16,21 @@ pub fn exec_run(
     run: u64,
     stats: &mut Stats,
 ) -> (Vec<Violation>, u64) {
-    let before = stats.get("executions");
+    let keys = [
+        "executions",
+        "fault_fired.io_error",
+        "fault_fired.zero_transfer",
+        "fault_fired.eintr",
+        "c16.fault_at_exact_byte",
+        "c16.calls_after_fault",
+        "c06.outcome.both-accept",
+        "c06.outcome.both-len",
+        "c06.outcome.both-content",
+        "c06.outcome.both-reject-truncated",
+        "fault_fired.reader_fault",
+        "fault_fired.medium_damage",
+    ];
+    let before: Vec<u64> = keys.iter().map(|k| stats.get(k)).collect();
     let v = match property {
         "C16" => iosim::run_c16(seed, run, stats),
         "C06" => iosim::run_c06(seed, run, stats),
@@ -24,12 +38,12 @@ pub fn exec_run(
         "C11" => return crate::netsim::run_c11(seed, run, config, stats),
         other => panic!("harness: unknown property {other}"),
     };
+    // per-run deltas only: the digest must not depend on which other runs
+    // this worker process executed before
     let mut d = Digest::new();
-    d.u64(stats.get("executions") - before);
-    d.u64(stats.get("fault_fired.io_error"));
-    d.u64(stats.get("fault_fired.zero_transfer"));
-    d.u64(stats.get("fault_fired.eintr"));
-    d.u64(stats.set_len("nontrivial"));
+    for (k, b) in keys.iter().zip(before.iter()) {
+        d.u64(stats.get(k) - b);
+    }
     for x in &v {
         d.str(&x.class);
         d.str(&x.case.to_string());
